@@ -60,6 +60,8 @@ fn main() {
     let mut ir = air::Ir::default();
     let _ = analyzer.analyze_pass2(&parser.veryl, &mut context, Some(&mut ir));
     let _ = Analyzer::analyze_post_pass2(&ir);
+    // the pipeline itself only does the AIG round trip, so that `rewrite` below has work to do
+    unsafe { std::env::set_var("VERYL_AIG_ROUNDTRIP", "1") };
     let mut modules = Vec::new();
     for c in &ir.components {
         let air::Component::Module(m) = c else { continue };
